@@ -41,9 +41,10 @@ class _PlCore(Contract):
     def make_args(self):
         from pandera.backends.polars.components import ColumnBackend as B
 
-        lf = PP.FrameP.fresh("lf", columns=("a", "b"), kinds={"a": "real", "b": "real"})
+        is_float = self.fixed.get("dtype", "other") == "float"
+        lf = PP.FrameP.fresh("lf", columns=("a", "b"), kinds={"a": "real", "b": "real"}, nan_columns=("a",) if is_float else None)
         cur().ghost["lf"] = lf
-        cur().ghost["is_float"] = False
+        cur().ghost["is_float"] = is_float
         return {"self": T.Ref(B).fresh("self"), "check_obj": lf,
                 "schema": T.Ref(None, nullable=T.Bool, unique=T.Bool, selector=T.Const("a"), name=T.Const("a")).fresh("schema")}
 
@@ -56,6 +57,7 @@ class _PlCore(Contract):
 
 class PolarsCheckNullable(_PlCore):
     target = f"{COLP}.check_nullable.__wrapped__"
+    split = {"dtype": ["float", "other"]}  # float columns can hold NaN: "nulls and nan values are effectively equivalent"
 
     def ensures(self, result, old, self_, check_obj, schema):
         lf = cur().ghost["lf"]
@@ -66,7 +68,7 @@ class PolarsCheckNullable(_PlCore):
             return out
         nullable = fld0(schema, "nullable")
         i = z3.Int(cur().fresh_name("row"))
-        no_null = SBool(z3.ForAll([i], z3.Implies(lf.sel(i), z3.Not(col.null(i)))))
+        no_null = SBool(z3.ForAll([i], z3.Implies(lf.sel(i), z3.And(z3.Not(col.null(i)), z3.Not(col.nan(i))))))
         failing = [r for r in rs if r.attrs.get("passed") is not True and not (isinstance(r.attrs.get("passed"), SBool) and False)]
         accepted = And(*[py_eq(r.attrs["passed"], True) for r in rs]) if rs else True
         out["verdict"] = Iff(accepted, Or(nullable, no_null))
@@ -75,7 +77,7 @@ class PolarsCheckNullable(_PlCore):
             co = r.attrs.get("check_output")
             if isinstance(co, PP.FrameP) and KEY in co.cols:
                 j = z3.Int(cur().fresh_name("j"))
-                out["check_output_true_exactly_on_non_null_rows"] = SBool(z3.Implies(lf.sel(j), core.as_z3_bool(co.cols[KEY].at(j)) == z3.Not(col.null(j))))
+                out["check_output_true_exactly_on_non_null_rows"] = SBool(z3.Implies(lf.sel(j), core.as_z3_bool(co.cols[KEY].at(j)) == z3.And(z3.Not(col.null(j)), z3.Not(col.nan(j)))))
         return out
 
 
